@@ -18,6 +18,15 @@
 //!   log variable, so the variable states record the complete evaluation order, and when several
 //!   arguments fault the latched fault names the one evaluated first.
 //!
+//! Steered around (deterministic behaviour of the unchanged code, outside C05, each would only blunt
+//! the cases): a function declared in a NAMESPACE returns its type's default (the result lands in a
+//! global of the function's simple name — still dumped, so the callee remains observable); a method
+//! call on an instance of a CLASS declared in a NAMESPACE faults "undefined field" (library classes
+//! are only read, consumer classes stay at file level); two dotted namespaces `A.B` / `A.C`
+//! declaring one name collide (at most one dotted library); the checker resolves the innermost
+//! USING scope first while the lowering walks the chain outermost first (only members common to all
+//! declarations of a name are used, so both agree on validity).
+//!
 //! Only `Vec`s are used (no hash containers): the text is a function of the seed alone.
 
 use super::gen::Names;
